@@ -139,16 +139,17 @@ theorem resolve_cycle_counterexample : ¬ resolve_idempotent_statement := by
   revert this
   decide
 
-/-- `specifiers()` lists redirect sources one hop away from a slot … -/
-theorem specifiers_lists_one_hop (g : Graph) (k t : Spec) (m : Mod)
-    (hk : (k, t) ∈ g.redirects) (ht : g.slot t = some (.module m)) :
-    SpecEntry.module k t ∈ g.specifiers := by
+/-- `specifiers()` lists every redirect source under the entry its target resolves to, however
+many hops away (finding F1b, repaired) … -/
+theorem specifiers_lists_redirect_sources (g : Graph) (k t : Spec) (m : Mod)
+    (hk : (k, t) ∈ g.redirects) (ht : g.slot (g.resolve t) = some (.module m)) :
+    SpecEntry.module k (g.resolve t) ∈ g.specifiers := by
   simp only [Graph.specifiers, List.mem_append, List.mem_filterMap]
   right
   exact ⟨(k, t), hk, by simp [ht, toResult]⟩
 
-theorem specifiers_lists_one_hop_err (g : Graph) (k t : Spec) (mi c es)
-    (hk : (k, t) ∈ g.redirects) (ht : g.slot t = some (.err mi c es)) :
+theorem specifiers_lists_redirect_sources_err (g : Graph) (k t : Spec) (mi c es)
+    (hk : (k, t) ∈ g.redirects) (ht : g.slot (g.resolve t) = some (.err mi c es)) :
     SpecEntry.error k c ∈ g.specifiers := by
   simp only [Graph.specifiers, List.mem_append, List.mem_filterMap]
   right
@@ -161,13 +162,11 @@ theorem specifiers_lists_slots (g : Graph) (k : Spec) (m : Mod)
   left
   exact ⟨(k, .module m), hk, by simp [toResult]⟩
 
-/-- F1b: … but not two hops away: source `0` of `0 → 1 → 2` is missing from the listing. -/
-theorem specifiers_multihop_counterexample :
-    (∀ a, SpecEntry.module 0 a ∉ g2.specifiers) ∧ SpecEntry.module 1 2 ∈ g2.specifiers := by
-  constructor
-  · intro a
-    simp [Graph.specifiers, g2, Graph.slot, toResult, List.lookup]
-  · decide
+/-- … two hops away included: source `0` of `0 → 1 → 2` is listed at `2` (it was missing before the
+repair of F1b) -/
+theorem specifiers_multihop_example :
+    SpecEntry.module 0 2 ∈ g2.specifiers ∧ SpecEntry.module 1 2 ∈ g2.specifiers := by
+  constructor <;> decide
 
 /-! ## type-preferring dependency resolution -/
 
